@@ -1,8 +1,10 @@
 package pki
 
 import (
+	"bytes"
 	"fmt"
 	"os"
+	"strings"
 	"testing"
 )
 
@@ -28,7 +30,7 @@ func simpleValid(f *Facts, a []AnchorFacts, dgs map[int][]byte) (bool, string) {
 		ok := false
 		for _, i := range s.SigVerifiesUnderDigestAlg {
 			c := f.Certs[i]
-			for _, j := range c.ChainsTo {
+			for _, j := range c.ChainsToLenient {
 				if a[j].IsCA && a[j].KUKeyCertSign && !a[j].UnknownCriticalExt && c.KUDigitalSignature && !c.UnknownCriticalExt {
 					ok = true
 				}
@@ -82,5 +84,86 @@ func TestMutationSweepAgreement(t *testing.T) {
 			}
 		}
 		t.Logf("%s: %d bytes, %d mutants accepted by the library, %d disagreements", ks, len(sod), accepted, disagreements)
+	}
+}
+
+// TestCertificateSweepAgreement flips every byte of the trust anchor and of the
+// embedded DS certificate and requires: whenever the library accepts the
+// document, the facts have a parseable anchor that the DS certificate chains to
+// (no disagreement in the direction "library accepts, facts say unusable").
+func TestCertificateSweepAgreement(t *testing.T) {
+	if testing.Short() {
+		t.Skip("short")
+	}
+	// default: two masks, three key specs (about 30 s); PKI_SWEEP_FULL=1: 11 masks, RSA-2048 in addition
+	masks := []byte{0x01, 0xff}
+	specs := []KeySpec{
+		{Kind: "ecdsa", Curve: "P-256", Hash: "sha256"},
+		{Kind: "ecdsa", Curve: "brainpoolP256r1", ExplicitParams: true, Hash: "sha256"},
+		{Kind: "rsa-pss", Bits: 1024, Hash: "sha256"},
+	}
+	if os.Getenv("PKI_SWEEP_FULL") != "" {
+		masks = []byte{0x01, 0x02, 0x04, 0x08, 0x10, 0x20, 0x40, 0x80, 0xff, 0x03, 0x7f}
+		specs = append(specs, KeySpec{Kind: "rsa", Bits: 2048, Hash: "sha256"})
+	}
+	for i, ks := range specs {
+		w := newWorld(t, int64(1100+i), ks)
+		sod, err := BuildSOD(NewSODSpec(w.ds, w.dgs, signingTime))
+		if err != nil {
+			t.Fatal(err)
+		}
+		dsOff := bytes.Index(sod, w.ds.Cert)
+		if dsOff < 0 {
+			t.Fatal("DS certificate not found in SOD")
+		}
+		for _, target := range []string{"anchor", "ds"} {
+			n := len(w.csca.Cert)
+			if target == "ds" {
+				n = len(w.ds.Cert)
+			}
+			accepted, disagreements := 0, 0
+			for pos := 0; pos < n; pos++ {
+				for _, x := range masks {
+					m, trust := sod, [][]byte{w.csca.Cert}
+					if target == "anchor" {
+						a := append([]byte{}, w.csca.Cert...)
+						a[pos] ^= x
+						trust = [][]byte{a}
+					} else {
+						m = append([]byte{}, sod...)
+						m[dsOff+pos] ^= x
+					}
+					_, err := runPA(m, w.dgs, nil, trust)
+					if err != nil {
+						if strings.HasPrefix(err.Error(), "PANIC") {
+							t.Errorf("GMRTD-DEVIATION (NEW) cert-sweep-panic/%s/%s/%d/%02x: %v", ks, target, pos, x, err)
+						}
+						continue
+					}
+					accepted++
+					f, a := ComputeFacts(m, w.dgs, trust)
+					why := ""
+					switch {
+					case !a[0].Parseable:
+						why = "anchor unparseable"
+					case !f.Parseable || len(f.Certs) != 1 || !f.Certs[0].Parseable:
+						why = "DS certificate unparseable"
+					case len(f.Certs[0].ChainsToLenient) == 0:
+						why = "ChainsToLenient empty"
+					default:
+						if ok, w2 := simpleValid(f, a, w.dgs); !ok {
+							why = w2
+						}
+					}
+					if why != "" {
+						disagreements++
+						if disagreements <= 15 {
+							t.Errorf("%s: %s byte %d xor %02x accepted by the library but facts say: %s", ks, target, pos, x, why)
+						}
+					}
+				}
+			}
+			t.Logf("%s: %s certificate %d bytes, %d mutants accepted by the library, %d disagreements", ks, target, n, accepted, disagreements)
+		}
 	}
 }
